@@ -236,7 +236,7 @@ def attribute_refusal(ctx, l, what, r, limit_si, limit_ri, one_signer, ns, one_r
     ctx.fail("%s returns %d for arguments of its domain" % (what, r), what + "/refused")
 
 
-@P.sub("signed", signed_case, quick=450, thorough=25000)
+@P.sub("signed", signed_case, quick=450, thorough=25000, chunk=30)
 def signed(case, ctx):
     """cms_sign / cms_verify: content, certificates, every SignerInfo valid under its signer; tampering; zero SignerInfos"""
     l = L(ctx)
@@ -340,7 +340,7 @@ def open_checks(ctx, what, l, opener, rs, outsider, expect, case_id):
     return ok_direct
 
 
-@P.sub("enveloped", env_case, quick=450, thorough=25000)
+@P.sub("enveloped", env_case, quick=450, thorough=25000, chunk=30)
 def enveloped(case, ctx):
     """cms_envelop / cms_deenvelop: every recipient opens with a key object of any provenance; outsiders; tampering of encryptedKey, IV, ciphertext"""
     l = L(ctx)
@@ -383,7 +383,7 @@ def enveloped(case, ctx):
 enc_case = st.fixed_dictionaries({"content": content_s, "key": _key16, "iv": _key16, "s1": _opt_info, "s2": _opt_info, "fseed": st.integers(0, 1 << 32), "full": _full})
 
 
-@P.sub("encrypted", enc_case, quick=600, thorough=40000)
+@P.sub("encrypted", enc_case, quick=600, thorough=40000, chunk=60)
 def encrypted(case, ctx):
     """cms_encrypt / cms_decrypt round trip == OpenSSL SM4-CBC; tampering of IV and ciphertext"""
     l = L(ctx)
@@ -426,7 +426,7 @@ se_case = st.fixed_dictionaries({"crl": st.sampled_from([True, True, True, False
                                  "s2": _opt_info, "base": st.integers(0, 1 << 20), "seed": st.integers(1, 1 << 40), "fseed": st.integers(0, 1 << 32), "full": _full})
 
 
-@P.sub("signed_enveloped", se_case, quick=450, thorough=25000)
+@P.sub("signed_enveloped", se_case, quick=450, thorough=25000, chunk=30)
 def signed_enveloped(case, ctx):
     """cms_sign_and_envelop / cms_deenvelop_and_verify: round trip for every signer and recipient set; tampering of every listed field; zero SignerInfos"""
     l = L(ctx)
